@@ -3,7 +3,7 @@ description language; both renderings (G and M) must be accepted and print the u
 A control that fails means printer/specialiser (or the build) is broken -> the run is void, not a violation."""
 import os
 
-from checks.c15_lang import (FuncDef, StructDef, V, L, GI, S, ZAHL, KOMMA, TEXT)
+from checks.c15_lang import (FuncDef, StructDef, V, L, GI, S, D, A, ZAHL, KOMMA, TEXT)
 from checks.c15_prog import Program, Module
 
 
@@ -122,7 +122,35 @@ def g_structs_nested(spec_mode, mono):
     return pr, None, '1\n2\n3\n4\n'
 
 
-GOLDEN = [g_generics, g_imports, g_nested, g_operators, g_structs, g_structs_nested]
+def g_typedefs(spec_mode, mono):
+    """not upstream's: the demo of the seeded defect C15c (one generic Kombination and one generic function instantiated with a type
+    definition, with its base and with an alias of the base); the expected output follows from the language rules: a definition is a
+    new type (its own overload of `zeige`), an alias is its target. M always with monomorphic Kombinationen: the control is about
+    instantiations of the generic Kombination, the reference must not contain any"""
+    pr = Program(spec_mode, True)
+    m = Module('main', 'M')
+    pr.modules = [m]
+    meter, nummer = D('Meter', ZAHL, 'm'), A('Nummer', ZAHL, 'f')
+    for t in (meter, nummer):
+        pr.named_mod[t] = 'main'
+        m.add('named', t)
+    pr.structs['Kiste'] = StructDef('Kiste', 'f', [('wert', T)], tparams=['T'])
+    m.add('struct', 'Kiste')
+    m.add('zeige')
+    pr.add_func(m, FuncDef('inhalt', [('k', GI('Kiste', T), False)], T, 'der gezeigte Inhalt von <k>',
+                           [('decl', 'w', T, ('field', 'wert', var('k'))), ('show', var('w')), ('ret', var('w'))], tparams=['T']))
+    KZ, KM, KN = GI('Kiste', ZAHL), GI('Kiste', meter), GI('Kiste', nummer)
+    m.add('stmts', [('decl', 'km', KM, ('ctor', 'Kiste', [('cast', lit(ZAHL, '3'), meter)])),
+                    ('decl', 'kz', KZ, ('ctor', 'Kiste', [lit(ZAHL, '7')])),
+                    ('decl', 'n', nummer, lit(ZAHL, '9')),
+                    ('decl', 'kn', KN, ('ctor', 'Kiste', [var('n')])),
+                    ('show', call('inhalt', var('kz'))), ('show', call('inhalt', var('km'))), ('show', call('inhalt', var('kn'))),
+                    ('assign', var('kn'), var('kz')), ('show', call('inhalt', var('kn'))),
+                    ('show', ('field', 'wert', var('km')))])
+    return pr, None, 'M:7\nM:7\nM:Meter(3)\nM:Meter(3)\nM:9\nM:9\nM:7\nM:7\nM:Meter(3)\n'
+
+
+GOLDEN = [g_generics, g_imports, g_nested, g_operators, g_structs, g_structs_nested, g_typedefs]
 
 
 def expected_of(repo, res):
